@@ -537,10 +537,14 @@ func (rr *rulesRunner) fixedText(text []byte, n ast.Node, following string) []by
 var longTextPlaceholder = []byte("<...>")
 
 func truncateText(s []byte, maxLen int) []byte {
-	if len(s) <= maxLen-len(longTextPlaceholder) {
+	if len(s) <= maxLen {
 		return s
 	}
 	maxLen -= len(longTextPlaceholder)
+	if maxLen < 0 {
+		// The limit can't even hold the placeholder.
+		maxLen = 0
+	}
 	leftLen := maxLen / 2
 	rightLen := (maxLen % 2) + leftLen
 	left := s[:leftLen]
